@@ -222,6 +222,13 @@ func runC18() procxResult {
 		expect[job]["VP_NODE_ENV_X"] = pipeEnv[job]["VP_NODE_ENV_X"]
 	}
 	names = append(names, "VP_TOKEN_FILE", "VP_NODE_ENV", "VP_TOKEN", "VP_TOK", "VP_NODE", "VP_NODE_ENV_X")
+	// a name the upstream task runner has a convention for (it builds an "ARGS" variable): like every other name it
+	// carries the task-, else pipeline-, else process-level value
+	os.Setenv("ARGS", "pr:--process-args")
+	pipeEnv[0]["ARGS"] = "pi0:--pipeline-args"
+	expect[0]["ARGS"] = pipeEnv[0]["ARGS"]
+	expect[1]["ARGS"] = "pr:--process-args"
+	names = append(names, "ARGS")
 	var script []string
 	for _, n := range names {
 		script = append(script, fmt.Sprintf(`printf '%s=<<%%s>>;' "${%s-UNSET}"`, "I_"+n, n))
